@@ -376,6 +376,7 @@ def _fmt_parts(e: ast.AST) -> Optional[List[str]]:
 
 @rule("C11.R5", "upload extraction follows the multipart request spec on every path", min_instances=24, also=["C03"])
 def c11_r5(ctx):
+    from ..util import comp_struct
     for tag, ci in client_classes(ctx.repo).items():
         outer = _method(ci, "_get_files_from_variables")
         sep_key = f"{ci.module.short}:{ci.qualname}._get_files_from_variables.separate_files"
@@ -387,9 +388,18 @@ def c11_r5(ctx):
         def run(scn):
             return Interp(sep, _sep_atom(scn), is_effect=eff).run()
 
+        def _rv(o):
+            """the returned value; a result variable assigned a name or a constant on this path stands for that value"""
+            v = o.value
+            if isinstance(v, ast.Name) and o.env.get(v.id) is not None:
+                d = strip_pre(o.env[v.id])
+                if isinstance(d, (ast.Name, ast.Constant)):
+                    return d
+            return v
+
         # other: returned unchanged, no effect
         outs = run({})
-        good = len(outs) == 1 and outs[0].kind == "return" and is_name(outs[0].value, "obj") and not outs[0].effects
+        good = len(outs) == 1 and outs[0].kind == "return" and is_name(_rv(outs[0]), "obj") and not outs[0].effects
         ctx.check(good, key(sep, "leaf"), f"a non-container, non-Upload value must be returned unchanged with no side effect; got {[o.text() for o in outs]}", sep.loc(), okmsg=f"{tag}: leaf returned unchanged")
 
         # Upload seen before: None returned, exactly one append of `path` to files_map[str(index of obj)]
@@ -399,7 +409,7 @@ def c11_r5(ctx):
             probs.append(f"{len(outs)} outcomes")
         else:
             o = outs[0]
-            if not (o.kind == "return" and (o.value is None or is_const(o.value, None))):
+            if not (o.kind == "return" and (o.value is None or is_const(_rv(o), None))):
                 probs.append(f"returns {o.text()} instead of None (file position must be null in operations)")
             effs = [norm(strip_pre(e)) for e in o.effects]
             if effs != ["files_map[str(files_list.index(obj))].append(path)"]:
@@ -413,7 +423,7 @@ def c11_r5(ctx):
             probs.append(f"{len(outs)} outcomes")
         else:
             o = outs[0]
-            if not (o.kind == "return" and (o.value is None or is_const(o.value, None))):
+            if not (o.kind == "return" and (o.value is None or is_const(_rv(o), None))):
                 probs.append(f"returns {o.text()} instead of None")
             effs = [norm(e) for e in o.effects]
             want_a = "files_list.append(obj)"
@@ -427,9 +437,16 @@ def c11_r5(ctx):
         ctx.check(not probs, key(sep, "upload-first"), "; ".join(probs), sep.loc(), okmsg=f"{tag}: first Upload registered once with a fresh index")
 
         # list: every element recursed with path.index, result collected in order
-        outs = [o for o in run({"list": True}) if any("loop body once" in t for t in o.trace)]
+        allo = run({"list": True})
+        outs = [o for o in allo if any("loop body once" in t for t in o.trace)]
         probs = []
-        if len(outs) != 1 or outs[0].kind != "return":
+        compform = [strip_pre(o.deref(o.value)) for o in allo if o.kind == "return" and o.value is not None and isinstance(strip_pre(o.deref(o.value)), ast.ListComp)]
+        if not outs and len(allo) == 1 and len(compform) == 1:
+            # comprehension form of the same loop (also what the loader makes of a plain accumulation loop)
+            cs = comp_struct(compform[0])
+            if not (cs[0] == "separate_files(path=f'{path}.{$0_0}', obj=$0_1)" and [(str(a), [str(x) for x in b]) for a, b in cs[1]] == [("enumerate(obj)", [])]):
+                probs.append(f"list branch builds {norm(compform[0])[:140]}; expected [separate_files(f'{{path}}.{{index}}', value) for index, value in enumerate(obj)]")
+        elif len(outs) != 1 or outs[0].kind != "return":
             probs.append(f"list branch outcomes: {[o.text() for o in outs]}")
         else:
             o = outs[0]
@@ -453,9 +470,15 @@ def c11_r5(ctx):
         ctx.check(not probs, key(sep, "list"), "; ".join(probs), sep.loc(), okmsg=f"{tag}: list elements recursed with path.index")
 
         # dict
-        outs = [o for o in run({"dict": True}) if any("loop body once" in t for t in o.trace)]
+        allo = run({"dict": True})
+        outs = [o for o in allo if any("loop body once" in t for t in o.trace)]
         probs = []
-        if len(outs) != 1 or outs[0].kind != "return":
+        compform = [strip_pre(o.deref(o.value)) for o in allo if o.kind == "return" and o.value is not None and isinstance(strip_pre(o.deref(o.value)), ast.DictComp)]
+        if not outs and len(allo) == 1 and len(compform) == 1:
+            cs = comp_struct(compform[0])
+            if not (cs[0] == "$0_0: separate_files(path=f'{path}.{$0_0}', obj=$0_1)" and [(str(a), [str(x) for x in b]) for a, b in cs[1]] == [("obj.items()", [])]):
+                probs.append(f"dict branch builds {norm(compform[0])[:140]}; expected {{key: separate_files(f'{{path}}.{{key}}', value) for key, value in obj.items()}}")
+        elif len(outs) != 1 or outs[0].kind != "return":
             probs.append(f"dict branch outcomes: {[o.text() for o in outs]}")
         else:
             o = outs[0]
